@@ -54,7 +54,7 @@ class Frame(object):
 
 
 class Interp(Ops):
-    FEAS_TIMEOUT_MS = 2000
+    FEAS_TIMEOUT_MS = 700
 
     def __init__(self, repo, registry, forced, vcs, root_label, opts=None):
         self.repo = repo
